@@ -1108,7 +1108,7 @@ def c05(run):
                 'loops/ifs, block locals, pronoun reads, calls nested in arguments, error calls (wrong arity, non-function, unknown name, '
                 'leaked local); metamorphic oracles on the implementation: an unused extra parameter+argument changes nothing, wrapping '
                 'statements that bind no new name in `if true` changes nothing; EVERY function body of up to 2 (quick) / 3 (thorough) statements '
-                'over a 21-shape vocabulary x 8 observations, tied to the model; non-trivial = at least 2 calls executed; distinct by program text')
+                'over a 27-shape vocabulary x 9 observations, tied to the model; non-trivial = at least 2 calls executed; distinct by program text')
     cases = []
     for i in range(n):
         fg = Funcs(rng)
@@ -1179,9 +1179,13 @@ SCOPE_PRE = 'put 1 into gg\nput 2 into hh\nhelper takes qq\nput 30 into gg\nput 
 SCOPE_BODY = ['put 10 into gg', 'put 11 into ll', 'put 12 into pp', 'say gg', 'say ll', 'say pp', 'say it', 'let gg be with pp',
               'put helper taking 7 into hh', 'say helper taking pp', 'if pp is 5\nput 13 into bb\nsay bb\n', 'if pp is 5\nput 14 into gg\n',
               'say bb', 'if pp is greater than 0\nput pp minus 5 into qq\ngive back ff taking qq\n', 'while pp is greater than 0\nknock pp down\nput 15 into ww\nif pp is 2\ngive back ww\n\n',
-              'say ww', 'give back gg', 'rock gg with pp', 'put pp into ll at 0', 'listen to ll', 'put ff into hh']
+              'say ww', 'give back gg', 'rock gg with pp', 'put pp into ll at 0', 'listen to ll', 'put ff into hh',
+              # a name resolved, then SHADOWED under another letter case (variable / nested function), then resolved again
+              'put 9 into HELPER', 'HeLPer takes zz\ngive back 77\n',
+              'say helper taking 1\nput 9 into HELPER\nsay helper taking 1', 'say helper taking 1\nHelper takes zz\ngive back 77\n\nsay helper taking 1',
+              'say gg\nput 8 into GG\nsay gg\nsay Gg', 'say Helper taking 1\nif pp is 5\nput 9 into helper\nsay Helper taking 1\n\nsay Helper taking 2']
 SCOPE_CALL = 'say ff taking 5\n'
-SCOPE_OBS = ['say gg\nsay hh', 'say ll', 'say pp', 'say bb', 'say it', 'say ww', 'say ff taking gg, hh', 'say hh taking 1']
+SCOPE_OBS = ['say gg\nsay hh', 'say ll', 'say pp', 'say bb', 'say it', 'say ww', 'say ff taking gg, hh', 'say hh taking 1', 'say HELPER taking 5']
 
 
 # ----------------------------------------------------------------------------- C06
@@ -1318,6 +1322,17 @@ def c06(run):
         if c in ('crash', 'hang'):
             run.fail({'program': h, 'answer': r[:200]}, 'array program crashes')
     run.extra['small_scope'] = {'operations': len(ARRAY_OPS), 'exhaustive_up_to_length': 3, 'histories': len(hist)}
+    # every writing statement through a chain of 1..13 subscripts (fresh, over a number, over an array), arrays and
+    # dictionaries of 8 ... 1025 entries, arrays nested 8 ... 300 deep
+    sc = [(k, src) for k, nn, src in scale_runs(run.tier == 'quick') if k in ('subscript-depth', 'array-elements', 'array-nesting', 'dictionary-keys')]
+    screqs = [run_req(src, 'line\n') for _, src in sc]
+    scm, scim = run.tie(screqs, proj=proj_run, functional=True, desc=lambda i: {'program': sc[i][1], 'section': 'scale:' + sc[i][0]})
+    for (k, src), r in zip(sc, scim):
+        if r is None:
+            continue
+        run.case(('scale', src), True, kind='scale:' + k, outcome=run_parts(r)[0])
+        if run_parts(r)[0] in ('crash', 'hang'):
+            run.fail({'program': src, 'answer': r[:200]}, 'array program crashes')
     # direct API histories
     U = progs.universe()
     arrs = [u for u in U if u.startswith('[')] + ['u']
@@ -1370,7 +1385,18 @@ def c07(run):
     for a in ['[|]', '[s61|]', '[s61,s62,s63|]', '[s61|s6b=s7a]', '[|s62=s79,s61=s78,s63=s7a]', '[s61,#3ff0000000000000|]', '[s61|s6b=#3ff0000000000000]']:
         for d in ['-', 's', 's2c', progs.senc('--')]:
             reqs.append('val join %s %s' % (a, d)); meta.append(('join', a, d))
-    nums = [0.0, 65.0, 97.0, 0x3A9, 0x10FFFF, 0x110000, 0xD800, 0xDFFF, 0xE000, -1.0, 0.5, 65.5, 1e300, progs.NAN, progs.INF, -progs.INF, 4294967296.0 + 65, -0.0]
+    # the ORDER in which join visits keyed values: every pair of keys from a set with prefixes continued by characters below
+    # and above the quote, case variants, digit strings, the empty key, non-string keys and strings that spell them
+    JK = [progs.senc(k) for k in ['New', 'New York', 'New!', 'New#', 'new', 'NEW', 'a', 'a b', 'ab', '', '"', '10', '9', 'é', 'e', 'true', 'null',
+                                  'mysterious', 'false']] + ['t', 'f', 'n', 'u']
+    for i, k1 in enumerate(JK):
+        for k2 in JK[i + 1:]:
+            reqs.append('val join [s30|%s=s31,%s=s32] s2c' % tuple(sorted([k1, k2]))); meta.append(('join', 'keys', None))
+    for _ in range(run.n(200, 4000)):
+        ks = sorted(rng.sample(JK, rng.randint(3, 6)))
+        reqs.append('val join [|%s] s2d' % ','.join('%s=%s' % (k, progs.senc('v%d' % j)) for j, k in enumerate(ks))); meta.append(('join', 'keys', None))
+    nums = [0.0, 65.0, 97.0, 0x3A9, 0x10FFFF, 0x110000, 0xD800, 0xDFFF, 0xE000, -1.0, 0.5, 65.5, 1e300, progs.NAN, progs.INF, -progs.INF, 4294967296.0 + 65, -0.0,
+            2.0 ** 31 + 65, 2.0 ** 32 - 1, 2.0 ** 63, 55295.0, 57344.0, 1114111.5, 5e-324]
     for x in nums:
         reqs.append('val cast %s -' % progs.nenc(float(x))); meta.append(('cast-num', x, None))
         reqs.append('val cast %s %s' % (progs.nenc(float(x)), progs.nenc(2.0))); meta.append(('cast-num-param', x, 2))
@@ -1638,6 +1664,20 @@ def c15(run):
         a = progs.render(rng, prog, plain=True)
         b = rock.Speller(rng, noise=0.05, comments=0.02, recase=0.7).program(recased)
         cases.append((a, b, len(names)))
+    # text-level re-casing (theorem C15_text_recase_behaviour) of the scope programs of C05, which resolve a name, shadow it
+    # under another letter case and resolve it again: every letter after the first of every word outside string literals
+    import itertools, re as _re
+    pool = []
+    for k in (1, 2):
+        for body in itertools.product(SCOPE_BODY, repeat=k):
+            pool.append(SCOPE_PRE + 'ff takes pp\n' + ''.join(b + '\n' for b in body) + 'give back pp with 100\n\n' + SCOPE_CALL + rng.choice(SCOPE_OBS) + '\n')
+    for t in rng.sample(pool, run.n(150, 3000)):
+        def rc(mo):
+            w = mo.group(0)
+            if w.startswith('"'):
+                return w
+            return w[0] + ''.join(c.upper() if rng.random() < 0.5 else c.lower() for c in w[1:])
+        cases.append((t, _re.sub(r'"[^"]*"|[A-Za-z]+', rc, t), 3))
     reqs = []
     for a, b, _ in cases:
         reqs += [run_req(a), run_req(b)]
